@@ -13,7 +13,9 @@ Oracles on the real code alone:
   (c) `structured_flat` [outer.., StructuredAsset(inner)]  vs  flat [outer.., inner..]: same c, l, u, same rows up to
                        N<->S and order, same dispatch rows at outer nodes, same optimal value, solutions transport
 
-A case is a plain JSON value: {'kind': 'scaled'|'structured', 'scn': <scenario of harness.scen>, 'target': name, ...}.
+A case is a plain JSON value: {'kind': 'scaled'|'structured', 'scn': <scenario of harness.scen>, 'target': name,
+'build': one of BUILDS (how the objects are made from the scenario: shared Node objects / a Node object per use / re-loaded from
+JSON / deep copies inside the wrappers - see `build_variant`; nodes are identified by name, so all give the same problem), ...}.
 """
 import copy
 import json
@@ -194,7 +196,8 @@ def gen_scaled_case(rnd, tmax=10, kinds=None, exact=True):
     if rnd.random() < 0.3:
         assets.append(gen.gen_simple_contract(rnd, g, prices, T, 'extra', rnd.choice(node_names)))
     s = {'grid': g, 'nodes': node_names + extra_nodes, 'prices': prices, 'assets': assets}
-    return {'kind': 'scaled', 'scn': s, 'target': sc['name'], 'base_kind': kind}
+    # (drawn last: the scenario itself is the one of the earlier stream)
+    return {'kind': 'scaled', 'scn': s, 'target': sc['name'], 'base_kind': kind, 'build': draw_build(rnd)}
 
 
 def gen_structured_case(rnd, tmax=10):
@@ -261,7 +264,7 @@ def gen_structured_case(rnd, tmax=10):
     pos = rnd.randint(0, len(assets))
     assets.insert(pos, sa)
     s = {'grid': g, 'nodes': outer_nodes + inner_nodes, 'prices': prices, 'assets': assets}
-    return {'kind': 'structured', 'scn': s, 'target': nm}
+    return {'kind': 'structured', 'scn': s, 'target': nm, 'build': draw_build(rnd)}
 
 
 def gen_case(rnd, tmax=10):
@@ -271,6 +274,63 @@ def gen_case(rnd, tmax=10):
     if r < 0.58:
         return gen_scaled_case(rnd, tmax, exact=False)
     return gen_structured_case(rnd, tmax)
+
+
+# ------------------------------------------------------------------ ways of building the objects
+# Nodes are identified by their NAME throughout the package (Portfolio keys its nodes by name, the mapping and the nodal
+# restrictions carry names): a portfolio whose assets share one Node object per name and a portfolio in which every asset (and a
+# structured asset's own `nodes`) holds a Node object of its own describe the same problem.  The way the objects are built is
+# drawn per case; correspondence and oracles apply unchanged to every one of them.
+BUILDS = ['shared', 'fresh', 'json', 'copies']
+#   shared : one Node object per name, used by every asset and wrapper (what harness.scen.build does)
+#   fresh  : a new Node(name) at every use - every asset, every base / inner asset and the `nodes` of a structured asset get their own
+#   json   : built as `shared`, then the whole portfolio sent through eao.serialization.to_json / load_from_json before the set-up
+#   copies : built as `shared`, but the inner portfolio of a structured asset is made of deep copies of the inner assets and a
+#            scaled asset gets a deep copy of its base
+
+
+class _FreshNodes(dict):
+    """node table handing out a NEW Node object at every look-up (a script that writes Node('N1') wherever it needs the node)"""
+
+    def __getitem__(self, n):
+        return eao.Node(dict.__getitem__(self, n).name)
+
+
+def _build_asset(spec, nodes, copies):
+    """harness.scen.build_asset with the wrappers built here (so that `copies` reaches nested wrappers)"""
+    t = spec['type']
+    if t == 'ScaledAsset':
+        args = scen.dec(copy.deepcopy(spec.get('args', {})))
+        base = _build_asset(spec['base'], nodes, copies)
+        return eao.assets.ScaledAsset(name=spec['name'], base_asset=copy.deepcopy(base) if copies else base, **args)
+    if t == 'StructuredAsset':
+        args = scen.dec(copy.deepcopy(spec.get('args', {})))
+        inner = [_build_asset(s, nodes, copies) for s in spec['inner']]
+        if copies:
+            inner = [copy.deepcopy(a) for a in inner]
+        return StructuredAsset(name=spec['name'], nodes=[nodes[n] for n in spec['nodes']], portfolio=Portfolio(inner), **args)
+    return scen.build_asset(spec, nodes)
+
+
+def build_variant(scn, variant=None):
+    """harness.scen.build(scn) with the objects built in the way `variant` (one of BUILDS; None = shared)"""
+    if variant in (None, 'shared'):
+        return scen.build(scn)
+    if variant not in BUILDS:
+        raise ValueError('unknown way of building: %r' % (variant,))
+    tg = scen.make_grid(scn['grid'])
+    nodes = scen.make_nodes(scn['nodes'])
+    if variant == 'fresh':
+        nodes = _FreshNodes(nodes)
+    portf = Portfolio([_build_asset(s, nodes, variant == 'copies') for s in scn['assets']])
+    if variant == 'json':
+        portf = eao.serialization.load_from_json(eao.serialization.to_json(portf))
+    prices = {k: np.asarray(v, dtype=float) for k, v in scn.get('prices', {}).items()}
+    return portf, tg, prices, nodes
+
+
+def draw_build(rnd):
+    return rnd.choice(['shared', 'shared', 'shared', 'fresh', 'fresh', 'fresh', 'json', 'json', 'copies', 'copies'])
 
 
 # ------------------------------------------------------------------ running the implementation
@@ -309,7 +369,7 @@ def run_impl(case):
             out['stage'] = 'base-ctor'
             return out
     try:
-        portf, tg, prices, nodes = scen.build(scn)
+        portf, tg, prices, nodes = build_variant(scn, case.get('build'))
     except Exception as e:
         out['error'] = err_class(e)
         out['stage'] = 'ctor'
@@ -514,8 +574,8 @@ def _solve(op, solver=None):
         return 'error:' + err_class(e)
 
 
-def _solve_scn(scn, solver=None):
-    portf, tg, prices, nodes = scen.build(scn)
+def _solve_scn(scn, solver=None, build=None):
+    portf, tg, prices, nodes = build_variant(scn, build)
     for spec, a in zip(scn['assets'], portf.assets):
         for k, v in spec.get('_attrs', {}).items():
             setattr(a, k, scen.dec(v))
@@ -536,8 +596,8 @@ def _block_of(portf, op_assets, name):
     raise KeyError(name)
 
 
-def _sizes(scn):
-    portf, tg, prices, nodes = scen.build(scn)
+def _sizes(scn, build=None):
+    portf, tg, prices, nodes = build_variant(scn, build)
     with Quiet(), impl.Capture(portf) as cap:
         op = portf.setup_optim_problem(prices, tg)
     return portf, tg, prices, op, {k: len(v[-1].c) for k, v in cap.caught.items()}
@@ -571,6 +631,7 @@ def _violation(oracle, detail, **facts):
 def oracle_scaled(case, seed=0, grid_pts=4):
     """oracles (a) and (b) on the real code; returns (violations, stats)"""
     viol, stats = [], {'fixed': 0, 'free': 0, 'skipped': None}
+    build = case.get('build')   # the scaled portfolios are built in the case's way, the reference (rescaled base) the plain way
     scn = jitter_prices(case['scn'], seed)
     target = case['target']
     spec = [s for s in scn['assets'] if s['name'] == target][0]
@@ -578,11 +639,11 @@ def oracle_scaled(case, seed=0, grid_pts=4):
     lo, hi = float(args.get('min_scale', 0.0)), float(args.get('max_scale', 1.0))
     nrm, fc = float(args.get('norm_scale', 1.0)), float(args.get('fix_costs', 0.0))
     base = spec['base']
-    facts = {'base_type': base['type'], 'own_window': bool('start' in args or 'end' in args),
+    facts = {'base_type': base['type'], 'build': build or 'shared', 'own_window': bool('start' in args or 'end' in args),
              'base_window': bool('start' in base.get('args', {}) or 'end' in base.get('args', {}))}
     stats['own_window'], stats['base_window'] = facts['own_window'], facts['base_window']
     try:
-        portf, tg, prices, op, sizes = _sizes(scn)
+        portf, tg, prices, op, sizes = _sizes(scn, build)
     except Exception as e:
         stats['skipped'] = 'setup:' + err_class(e)
         return viol, stats
@@ -618,7 +679,7 @@ def oracle_scaled(case, seed=0, grid_pts=4):
         # (a) fixed scale vs rescaled base
         s_fix = _with_scale(scn, target, s, s)
         try:
-            p1, tg1, pr1, op1, r1 = _solve_scn(s_fix)
+            p1, tg1, pr1, op1, r1 = _solve_scn(s_fix, build=build)
         except Exception as e:
             stats['skipped'] = 'fixed-setup:' + err_class(e)
             continue
@@ -687,7 +748,7 @@ def oracle_scaled(case, seed=0, grid_pts=4):
             viol.append(_violation('scaled_free', 'free scale value %.8g below fixed-scale value %.8g' % (v_free, best), what='lower', **facts))
         s_fix = _with_scale(scn, target, s_star, s_star)
         try:
-            _, _, _, _, r3 = _solve_scn(s_fix)
+            _, _, _, _, r3 = _solve_scn(s_fix, build=build)
             if not isinstance(r3, str) and abs(float(r3.value) - v_free) > tol:
                 viol.append(_violation('scaled_free', 'free scale value %.8g at reported scale %.6g, but fixing the scale there gives %.8g' % (
                     v_free, s_star, float(r3.value)), what='at-optimum', **facts))
@@ -718,6 +779,7 @@ def _intersect_window(a, wargs):
 def oracle_structured(case, seed=0):
     """oracle (c) on the real code; returns (violations, stats)"""
     viol, stats = [], {'compared': 0, 'dispatch_equal': 0, 'skipped': None}
+    build = case.get('build')   # the structured portfolio is built in the case's way, the flat reference the plain way
     scn = jitter_prices(case['scn'], seed)
     target = case['target']
     spec = [s for s in scn['assets'] if s['name'] == target][0]
@@ -725,9 +787,9 @@ def oracle_structured(case, seed=0):
     for a in inner:
         _intersect_window(a, spec['args'])
     flat = _replace_asset(scn, target, inner)
-    facts = {'inner_types': sorted(set(a['type'] for a in inner)), 'window': bool(spec['args'])}
+    facts = {'inner_types': sorted(set(a['type'] for a in inner)), 'window': bool(spec['args']), 'build': build or 'shared'}
     try:
-        p1, tg1, pr1, op1, r1 = _solve_scn(scn)
+        p1, tg1, pr1, op1, r1 = _solve_scn(scn, build=build)
     except Exception as e:
         stats['skipped'] = 'structured-setup:' + err_class(e)
         return viol, stats
@@ -847,7 +909,7 @@ def scenarios(seed, tier):
 
 
 def run_case(case, drv, with_oracle=True):
-    r = {'evaluated': 1, 'nontrivial': False, 'features': [case['kind'], 'base:' + str(case.get('base_kind'))],
+    r = {'evaluated': 1, 'nontrivial': False, 'features': [case['kind'], 'base:' + str(case.get('base_kind')), 'build:%s' % (case.get('build') or 'shared')],
          'disagreements': [], 'violations': []}
     ir, mr, dis = run_corr(case, drv)
     r['disagreements'] = [{'component': case['kind'], 'detail': d} for d in dis]
